@@ -127,6 +127,19 @@ CHECKS = {
         "the tokenising translator (validated against emitted keys on every value), CPython/pyo3/pythonize."),
   technique="translation validation of derived encoders against a Lean-proved codec/schema model; regenerated schema decided in the kernel",
   engine="lean-proofs+translator+rust/python-differential"),
+
+ "C04": dict(
+  category="other",
+  text=("Covariance of the specification is proved in Lean (Props/C04.lean): if an operation maps an atom onto an atom within a distance under periodic boundary conditions, the transported operation does "
+        "so in the re-described crystal for origin shift, added lattice vectors, rigid rotation, uniform scaling (distance scaled), and integer change of basis; the mirror-partner map on ITA numbers is an "
+        "involution moving exactly the 11 enantiomorphic pairs. The statement about the implementation's answers is metamorphic exploration: the real code runs on a crystal and on a random word of 1-5 "
+        "re-descriptions (incl. supercell and mirror image); number, Hall number, Pearson symbol, operations per primitive cell (no-supercell pairs), orbit partition through the recorded site map, Wyckoff "
+        "multiplicity and orientation-free site-symmetry symbol per atom are extracted by the Lean driver and must agree."),
+  design_ref="DESIGN.md §3 C04",
+  note=("Trusted: generator site map / re-description record, brute-force premise validation, Lean table lookups for multiplicities. Invariance of the implementation's answer for ALL inputs is not proved "
+        "(it would follow from completeness of the search, assumptions A-bravais/A-coeff)."),
+  technique="Lean 4 covariance theorems for the specification + metamorphic differential runs with invariants extracted by the Lean driver",
+  engine="lean-proofs+metamorphic"),
 }
 
 NA_REASON = "check not built yet (work in progress; will be claimed)"
